@@ -35,7 +35,7 @@ SecRuleEngine On
 SecRequestBodyAccess On
 SecResponseBodyAccess On
 SecResponseBodyMimeType text/plain
-SecRequestBodyLimit 64
+SecRequestBodyLimit 80
 SecRequestBodyInMemoryLimit 8
 SecRequestBodyLimitAction ProcessPartial
 SecResponseBodyLimit 64
@@ -47,6 +47,10 @@ SecRule REQUEST_HEADERS:X-Ctl "@contains engine-off" "id:11,phase:1,pass,nolog,c
 SecRule REQUEST_HEADERS:X-Ctl "@contains reqlimit" "id:12,phase:1,pass,nolog,ctl:requestBodyLimit=5"
 SecRule REQUEST_HEADERS:X-Ctl "@contains audit-on" "id:13,phase:1,pass,nolog,ctl:auditEngine=On"
 SecRule REQUEST_HEADERS:X-Ctl "@contains audit-parts" "id:14,phase:1,pass,nolog,ctl:auditLogParts=+E"
+SecRule REQUEST_HEADERS:X-Ctl "@contains parts-noop-add" "id:23,phase:1,pass,nolog,ctl:auditLogParts=+F"
+SecRule REQUEST_HEADERS:X-Ctl "@contains parts-noop-del" "id:24,phase:1,pass,nolog,ctl:auditLogParts=-J"
+SecRule REQUEST_HEADERS:X-Ctl "@contains parts-abs" "id:25,phase:1,pass,nolog,ctl:auditLogParts=ABIZ"
+SecRule REQUEST_HEADERS:X-Ctl "@contains parts-del" "id:26,phase:1,pass,nolog,ctl:auditLogParts=-C"
 SecRule REQUEST_HEADERS:X-Ctl "@contains rm-id" "id:15,phase:1,pass,nolog,ctl:ruleRemoveById=100"
 SecRule REQUEST_HEADERS:X-Ctl "@contains rm-range" "id:16,phase:1,pass,nolog,ctl:ruleRemoveById=100-101"
 SecRule REQUEST_HEADERS:X-Ctl "@contains rm-target" "id:17,phase:1,pass,nolog,ctl:ruleRemoveTargetById=101;ARGS:a"
@@ -67,6 +71,7 @@ SecRule REQUEST_HEADERS:X-Deny "@streq 4" "id:44,phase:4,deny,status:404,log"
 SecRule REQUEST_HEADERS:X-Deny "@streq 5" "id:45,phase:5,pass,log,auditlog,msg:'late'"
 SecRule ARGS:a "@rx (a)(b)(c)?" "id:100,phase:2,capture,pass,log,tag:tagx,severity:2,setvar:tx.cap=%{tx.1}%{tx.2},setvar:tx.n=+1"
 SecRule ARGS:a "@streq x" "id:101,phase:2,pass,nolog,setvar:tx.hit=+1,setvar:tx.name=%{MATCHED_VAR_NAME}"
+SecRule FILES_NAMES "@rx ." "id:106,phase:2,pass,nolog,setvar:tx.upload=%{MATCHED_VAR}"
 SecRule REQUEST_BODY "@contains zz" "id:102,phase:2,pass,nolog,setvar:tx.body=seen"
 SecRule RESPONSE_BODY "@contains yy" "id:103,phase:4,pass,nolog,setvar:tx.rbody=seen"
 SecRule TX:n "@ge 1" "id:104,phase:2,pass,nolog,setvar:tx.chainlike=1"
@@ -83,7 +88,11 @@ type txPlan struct {
 	Calls    int      `json:"calls"`  // how many API calls are made before Close (early termination)
 	Logging  bool     `json:"logging"` // call ProcessLogging before Close
 	CloseTwice bool   `json:"close_twice"`
+	Upload     bool   `json:"upload,omitempty"`      // the body is a multipart/form-data upload with one file part
+	RmTmp      bool   `json:"rm_tmp,omitempty"`      // the upload's temporary file disappears before Close (Close then reports an error)
 }
+
+const uploadBody = "--b\r\nContent-Disposition: form-data; name=f; filename=x\r\n\r\nzz\r\n--b--\r\n"
 
 type caseJSON struct {
 	Preds []txPlan `json:"preds"`
@@ -136,7 +145,11 @@ func runTx(tx *corazawaf.Transaction, pl txPlan) (out string, readers []io.Reade
 		if pl.Deny != "" {
 			tx.AddRequestHeader("X-Deny", pl.Deny)
 		}
-		tx.AddRequestHeader("Content-Type", "application/x-www-form-urlencoded")
+		if pl.Upload {
+			tx.AddRequestHeader("Content-Type", "multipart/form-data; boundary=b")
+		} else {
+			tx.AddRequestHeader("Content-Type", "application/x-www-form-urlencoded")
+		}
 		if !step() {
 			return
 		}
@@ -149,15 +162,19 @@ func runTx(tx *corazawaf.Transaction, pl txPlan) (out string, readers []io.Reade
 		var it *types.Interruption
 		var nw int
 		var err error
-		for off := 0; off < len(pl.Body) || off == 0; off += 5 {
+		body := pl.Body
+		if pl.Upload {
+			body = uploadBody
+		}
+		for off := 0; off < len(body) || off == 0; off += 5 {
 			end := off + 5
-			if end > len(pl.Body) {
-				end = len(pl.Body)
+			if end > len(body) {
+				end = len(body)
 			}
 			var n1 int
-			it, n1, err = tx.WriteRequestBody([]byte(pl.Body[off:end]))
+			it, n1, err = tx.WriteRequestBody([]byte(body[off:end]))
 			nw += n1
-			if it != nil || err != nil || end == len(pl.Body) {
+			if it != nil || err != nil || end == len(body) {
 				break
 			}
 		}
@@ -334,11 +351,36 @@ func snapshot(tx *corazawaf.Transaction) map[string]string {
 	return res
 }
 
-var ctlChoices = []string{"engine-det", "engine-off", "reqlimit", "audit-on", "audit-parts", "rm-id", "rm-range", "rm-target", "force-body", "body-access-off", "resp-access-off", "resp-limit", "rm-tag"}
+// wafSnapshot: the plain settings of the WAF (numbers, strings, flags and slices of them), canonicalised
+func wafSnapshot(w *corazawaf.WAF) string {
+	v := reflect.ValueOf(w).Elem()
+	var parts []string
+	for i := 0; i < v.NumField(); i++ {
+		f := access(v.Field(i))
+		switch f.Kind() {
+		case reflect.Bool, reflect.Int, reflect.Int8, reflect.Int16, reflect.Int32, reflect.Int64, reflect.Uint, reflect.Uint8,
+			reflect.Uint16, reflect.Uint32, reflect.Uint64, reflect.String:
+			parts = append(parts, v.Type().Field(i).Name+":"+canon(f, 0, map[uintptr]bool{}))
+		case reflect.Slice:
+			switch f.Type().Elem().Kind() {
+			case reflect.Uint8, reflect.Int, reflect.String, reflect.Int32:
+				// the whole backing array up to the capacity: an in-place edit of a shared slice shows here
+				full := f
+				if f.Cap() > f.Len() {
+					full = f.Slice(0, f.Cap())
+				}
+				parts = append(parts, v.Type().Field(i).Name+":"+canon(full, 0, map[uintptr]bool{}))
+			}
+		}
+	}
+	return strings.Join(parts, ";")
+}
+
+var ctlChoices = []string{"parts-noop-add", "parts-noop-del", "parts-abs", "parts-del", "engine-det", "engine-off", "reqlimit", "audit-on", "audit-parts", "rm-id", "rm-range", "rm-target", "force-body", "body-access-off", "resp-access-off", "resp-limit", "rm-tag"}
 var flowChoices = []string{"", "", "skip", "skipafter", "allow", "allow-request", "allow-phase"}
 var denyChoices = []string{"", "", "", "1", "2", "3", "4", "5"}
 var queries = []string{"", "a=x", "a=ab&b=abc", "a=x&a=ab&a=abc", "q=abc&a=x"}
-var bodies = []string{"", "b=ab", "k=zz&a=x", "0123456789abcdefzz", strings.Repeat("z", 70)}
+var bodies = []string{"", "b=ab", "k=zz&a=x", "0123456789abcdefzz", strings.Repeat("z", 90)}
 var respBodies = []string{"", "yy", "hello yy world", strings.Repeat("y", 70)}
 
 func genPlan(r *rand.Rand, dirty bool) txPlan {
@@ -358,6 +400,10 @@ func genPlan(r *rand.Rand, dirty bool) txPlan {
 			pl.Calls = r.Intn(8)
 		}
 		pl.Logging = r.Intn(4) != 0
+		if r.Intn(6) == 0 {
+			pl.Upload = true
+			pl.RmTmp = r.Intn(2) == 0
+		}
 	} else {
 		if r.Intn(3) == 0 {
 			pl.Deny = denyChoices[r.Intn(len(denyChoices))]
@@ -395,6 +441,7 @@ func Run(cfg vh.Config) (*vh.Result, error) {
 			return err
 		}
 		res.Evaluations++
+		wafBase := wafSnapshot(waf)
 		var last *corazawaf.Transaction
 		var deadReaders []io.Reader
 		dirtyKeys := map[string]bool{}
@@ -409,6 +456,17 @@ func Run(cfg vh.Config) (*vh.Result, error) {
 				}
 			}
 			deadReaders = append(deadReaders, rds...)
+			if pl.RmTmp {
+				// the upload's temporary file is gone before Close (tmp cleaner, a hook that moved it away)
+				for _, f := range tx.Variables().FilesTmpNames().Get("") {
+					_ = os.Remove(f)
+				}
+			}
+			// the WAF itself is configuration: no transaction may leave a mark on it (ctl changes are per transaction)
+			res.OracleEvaluations++
+			if w := wafSnapshot(waf); w != wafBase {
+				fail("c05-waf-mutated", fmt.Sprintf("a transaction changed the WAF's own settings: %.200s vs %.200s", w, wafBase), c)
+			}
 			if err := tx.Close(); err != nil {
 				_ = err
 			}
